@@ -705,3 +705,57 @@ Qed.
 
 Lemma dump_pinned_agrees : forall t v, has_cus v = false -> dump_pinned t v = Some (dump t v).
 Proof. intros t v H. unfold dump_pinned. rewrite H. reflexivity. Qed.
+
+(** ** What the parser returns for an atomic type is a valid instance value. *)
+Definition no_lead_ws (s : string) : Prop :=
+  match s with EmptyString => True | String c _ => is_ws c = false end.
+
+Lemma lstrip_no_lead : forall s, no_lead_ws (lstrip s).
+Proof.
+  induction s as [|c r IH]; simpl; [exact I|].
+  destruct (is_ws c) eqn:W; [exact IH | simpl; exact W].
+Qed.
+
+Lemma lstrip_fix : forall s, no_lead_ws s -> lstrip s = s.
+Proof. intros [|c r] H; simpl in *; [reflexivity | rewrite H; reflexivity]. Qed.
+
+Lemma rstrip_no_lead : forall s, no_lead_ws s -> no_lead_ws (rstrip s).
+Proof.
+  intros [|c r] H; simpl in *; [exact I|].
+  destruct (rstrip r); [rewrite H; simpl; exact H | simpl; exact H].
+Qed.
+
+Lemma strip_idem : forall s, strip (strip s) = strip s.
+Proof.
+  intros s. unfold strip.
+  rewrite (lstrip_fix (rstrip (lstrip s))) by (apply rstrip_no_lead; apply lstrip_no_lead).
+  apply rstrip_idem.
+Qed.
+
+Definition atomic (t : ty) : bool :=
+  match t with
+  | TInt | TFloat | TBool | TStr | TNEStr | TLit _ | TCus _ => true
+  | _ => false
+  end.
+
+Theorem parsed_atoms_valid : forall (norm : cust -> string -> option string),
+  (forall c s s', norm c s = Some s' -> norm c s' = Some s') ->
+  forall t j v, atomic t = true -> parse norm t j = Some v ->
+  wtb norm t v = true /\ omitsb t v = true /\ parse norm t (dump t v) = Some v.
+Proof.
+  intros norm Hid t j v Ha Hp.
+  assert (Hw : wtb norm t v = true /\ omitsb t v = true).
+  { destruct t; try discriminate; simpl in Hp.
+    - destruct j; inversion Hp; subst; split; reflexivity.
+    - destruct j; inversion Hp; subst; split; reflexivity.
+    - destruct j; inversion Hp; subst; split; reflexivity.
+    - destruct j; try discriminate. destruct (nonempty (strip s)) eqn:E; [|discriminate].
+      inversion Hp; subst. simpl. rewrite strip_idem, String.eqb_refl, E. split; reflexivity.
+    - destruct j; try discriminate. destruct (has_nonws s) eqn:E; [|discriminate].
+      inversion Hp; subst. simpl. rewrite E. split; reflexivity.
+    - destruct (memb j vs) eqn:E; [|discriminate]. inversion Hp; subst. simpl. rewrite E. split; reflexivity.
+    - destruct j; try discriminate. destruct (norm c s) as [s'|] eqn:E; [|discriminate].
+      inversion Hp; subst. simpl. rewrite (Hid c s s' E), String.eqb_refl. split; reflexivity. }
+  destruct Hw as [Hw Ho]. split; [exact Hw|]. split; [exact Ho|].
+  apply parse_dump; try assumption. destruct t; try discriminate; reflexivity.
+Qed.
